@@ -308,8 +308,8 @@ Proof.
 Qed.
 
 (* what one preProcess emits: zero for every switched-off type *)
-Lemma report_step_masked ratio pods s node_err label annot s' ev :
-  cstep ratio pods s (OReport node_err label annot) = (s', ReportOut (Some ev)) ->
+Lemma report_step_masked ratio pods s node_err label annot acpu amem s' ev :
+  cstep ratio pods s (OReport node_err label annot acpu amem) = (s', ReportOut (Some ev)) ->
   (has_type 1 (effective_types (c_types s) annot) = false -> fst ev = 0) /\
   (has_type 2 (effective_types (c_types s) annot) = false -> snd ev = 0).
 Proof.
@@ -318,19 +318,54 @@ Proof.
   intros H. injection H as _ H. subst ev. split; intros; [apply mask_off_cpu|apply mask_off_mem]; auto.
 Qed.
 
+(* ---------- the cap by the current allocatable ---------- *)
+Lemma cap_event_bounds ratio acpu amem r :
+  0 <= ratio <= 100 -> 0 <= acpu <= max_alloc -> 0 <= amem <= max_alloc -> 0 <= fst r -> 0 <= snd r ->
+  let e := cap_event ratio acpu amem r in
+  0 <= fst e <= fst r /\ 0 <= snd e <= snd r /\
+  (0 < ratio -> fst e <= acpu * ratio / 100 /\ snd e <= amem * ratio / 100) /\
+  (fst r <= acpu * ratio / 100 -> fst e = fst r) /\ (snd r <= amem * ratio / 100 -> snd e = snd r).
+Proof.
+  intros Hr Ha Hm H1 H2 e. subst e. unfold cap_event.
+  destruct (ratio <=? 0) eqn:R.
+  - apply Z.leb_le in R. repeat split; auto; lia.
+  - apply Z.leb_gt in R.
+    assert (L1 : quot64 (mul64 acpu ratio) 100 = acpu * ratio / 100).
+    { unfold mul64. rewrite wrap64_small by (consts; nia). unfold quot64. apply Z.quot_div_nonneg; nia. }
+    assert (L2 : quot64 (mul64 amem ratio) 100 = amem * ratio / 100).
+    { unfold mul64. rewrite wrap64_small by (consts; nia). unfold quot64. apply Z.quot_div_nonneg; nia. }
+    rewrite L1, L2. cbn [fst snd].
+    assert (0 <= acpu * ratio / 100) by (apply Z.div_pos; nia).
+    assert (0 <= amem * ratio / 100) by (apply Z.div_pos; nia).
+    unfold cap1.
+    destruct (acpu * ratio / 100 <? fst r) eqn:C1; destruct (amem * ratio / 100 <? snd r) eqn:C2;
+      try apply Z.ltb_lt in C1; try apply Z.ltb_ge in C1; try apply Z.ltb_lt in C2; try apply Z.ltb_ge in C2;
+      repeat split; intros; lia.
+Qed.
+
 (* ---------- whole histories of the calculator ---------- *)
 Section History.
-  Variables (ratio : Z) (pods : list pod) (Ac Am : Z).
+  (* pods: the pod populations of the history (a sampling step names the active one) *)
+  Variables (ratio : Z) (pods : list (list pod)) (Ac Am : Z).
   Hypothesis Hratio : 0 <= ratio <= 100.
   Hypothesis HAc : 0 <= Ac <= max_alloc.
   Hypothesis HAm : 0 <= Am <= max_alloc.
-  Hypothesis Hpods : forall policy, 0 <= guaranteed_cpu_request policy pods <= max_amount.
+  Hypothesis Hpods : forall policy psel, 0 <= guaranteed_cpu_request policy (pods_at pods psel) <= max_amount.
 
   Definition op_ok (o : cop) : Prop :=
     match o with
-    | OSample _ _ acpu amem _ _ ucpu umem =>
+    | OSample _ _ acpu amem _ _ ucpu umem _ =>
         0 <= acpu <= Ac /\ 0 <= amem <= Am /\ 0 <= ucpu <= max_amount /\ 0 <= umem <= max_amount
+    | OReport _ _ _ acpu amem => 0 <= acpu <= Ac /\ 0 <= amem <= Am
     | _ => True
+    end.
+
+  (* what a report step emits, against the allocatable the node has AT THAT STEP *)
+  Definition step_ok (o : cop) (out : cout) : Prop :=
+    match o, out with
+    | OReport _ _ _ acpu amem, ReportOut (Some ev) =>
+        0 <= fst ev <= acpu * ratio / 100 /\ 0 <= snd ev <= amem * ratio / 100
+    | _, _ => True
     end.
 
   Definition Bc := Ac * ratio / 100.
@@ -359,31 +394,43 @@ Section History.
     | _ => True
     end.
 
-  Lemma cstep_inv s o : cinv s -> op_ok o -> cinv (fst (cstep ratio pods s o)) /\ out_ok (snd (cstep ratio pods s o)).
+  Lemma cstep_inv s o : cinv s -> op_ok o ->
+    cinv (fst (cstep ratio pods s o)) /\ out_ok (snd (cstep ratio pods s o)) /\ step_ok o (snd (cstep ratio pods s o)).
   Proof.
     intros [Hl HF] Hop. pose proof B_bounds as [HBc HBm].
-    destruct o as [ne lb ac am pe po uc um | ne lb an | k ty]; unfold cstep.
+    destruct o as [ne lb ac am pe po uc um ps | ne lb an ac am | k ty]; unfold cstep.
     - destruct (ne || negb (label_on lb) || pe); cbn [fst snd].
       + split; [split; auto|]. simpl. auto.
       + destruct Hop as (O1 & O2 & O3 & O4).
-        pose proof (sample_pair_bounds ratio ac am (guaranteed_cpu_request po pods) uc um Hratio
-                      ltac:(lia) ltac:(lia) (Hpods po) O3 O4) as (S1 & S2 & _).
+        pose proof (sample_pair_bounds ratio ac am (guaranteed_cpu_request po (pods_at pods ps)) uc um Hratio
+                      ltac:(lia) ltac:(lia) (Hpods po ps) O3 O4) as (S1 & S2 & _).
         assert (ac * ratio / 100 <= Bc) by (unfold Bc; apply Z.div_le_mono; nia).
         assert (am * ratio / 100 <= Bm) by (unfold Bm; apply Z.div_le_mono; nia).
         assert (HF' : Forall (fun u => 0 <= fst u <= Bc /\ 0 <= snd u <= Bm)
-                        (enqueue (c_queue s) (sample_pair ratio ac am (guaranteed_cpu_request po pods) uc um))).
+                        (enqueue (c_queue s) (sample_pair ratio ac am (guaranteed_cpu_request po (pods_at pods ps)) uc um))).
         { apply enqueue_forall; auto. lia. }
-        pose proof (enqueue_length (c_queue s) (sample_pair ratio ac am (guaranteed_cpu_request po pods) uc um) Hl).
-        split; [split|split]; cbn [c_queue]; auto; lia.
-    - destruct (ne || negb (label_on lb)); cbn [fst snd]. { split; [split; auto|exact I]. }
-      destruct (compute_report (c_queue s)) as [r|] eqn:E; cbn [fst snd]; [|split; [split; auto|exact I]].
+        pose proof (enqueue_length (c_queue s) (sample_pair ratio ac am (guaranteed_cpu_request po (pods_at pods ps)) uc um) Hl).
+        split; [split|split; [split|exact I]]; cbn [c_queue]; auto; lia.
+    - destruct (ne || negb (label_on lb)); cbn [fst snd]. { split; [split; auto|split; exact I]. }
+      destruct (compute_report (c_queue s)) as [r|] eqn:E; cbn [fst snd]; [|split; [split; auto|split; exact I]].
       split; [split; auto|].
       assert (Hlen : (1 <= length (c_queue s) <= 10)%nat).
       { split; auto. destruct (c_queue s); [discriminate|simpl; lia]. }
       destruct (report_bounds (c_queue s) 0 Bc 0 Bm Hlen) as (c & m & E' & R1 & R2 & _); auto; try lia.
-      rewrite E in E'. injection E' as E'. subst r. cbn [out_ok].
-      apply mask_bounds; cbn [fst snd]; lia.
-    - destruct ((k =? 0) || (k =? 1) || (k =? 2)); cbn [fst snd]; split; try exact I; split; auto.
+      rewrite E in E'. injection E' as E'. subst r. cbn [out_ok step_ok].
+      destruct Hop as [Oc Om].
+      pose proof (cap_event_bounds ratio ac am (c, m) Hratio ltac:(lia) ltac:(lia) ltac:(cbn; lia) ltac:(cbn; lia))
+        as (C1 & C2 & C3 & _). cbn [fst snd] in C1, C2.
+      assert (D1 : 0 <= ac * ratio / 100) by (apply Z.div_pos; nia).
+      assert (D2 : 0 <= am * ratio / 100) by (apply Z.div_pos; nia).
+      assert (K : fst (cap_event ratio ac am (c, m)) <= ac * ratio / 100 /\ snd (cap_event ratio ac am (c, m)) <= am * ratio / 100).
+      { destruct (Z.eq_dec ratio 0) as [E0|NZ].
+        - assert (Bc = 0) by (unfold Bc; rewrite E0, Z.mul_0_r; reflexivity).
+          assert (Bm = 0) by (unfold Bm; rewrite E0, Z.mul_0_r; reflexivity).
+          rewrite E0 at 2 4. rewrite !Z.mul_0_r. change (0 / 100) with 0. lia.
+        - apply C3. lia. }
+      split; apply mask_bounds; cbn [fst snd]; lia.
+    - destruct ((k =? 0) || (k =? 1) || (k =? 2)); cbn [fst snd]; split; try exact I; try (split; auto); split; exact I.
   Qed.
 
   (* every report of every history stays within [0, ratio% of the largest allocatable] *)
@@ -393,12 +440,31 @@ Section History.
     induction ops as [|o ops IH]; intros s Hs Hops.
     - simpl. split; auto.
     - inversion Hops as [|o' ops' Ho Hops']; subst.
-      cbn [crun]. pose proof (cstep_inv s o Hs Ho) as [I1 O1].
+      cbn [crun]. pose proof (cstep_inv s o Hs Ho) as (I1 & O1 & _).
       destruct (cstep ratio pods s o) as [s1 out]. cbn [fst snd] in *.
       destruct (IH s1 I1 Hops') as [I2 O2].
       destruct (crun ratio pods s1 ops) as [s2 outs]. cbn [fst snd] in *.
       split; auto.
   Qed.
+
+  (* every report of every history stays within [0, ratio% of the allocatable the
+     node has at that report step] *)
+  Lemma crun_current : forall ops s, cinv s -> Forall op_ok ops ->
+    Forall2 step_ok ops (snd (crun ratio pods s ops)).
+  Proof.
+    induction ops as [|o ops IH]; intros s Hs Hops.
+    - simpl. constructor.
+    - inversion Hops as [|o' ops' Ho Hops']; subst.
+      cbn [crun]. pose proof (cstep_inv s o Hs Ho) as (I1 & _ & S1).
+      destruct (cstep ratio pods s o) as [s1 out]. cbn [fst snd] in *.
+      specialize (IH s1 I1 Hops').
+      destruct (crun ratio pods s1 ops) as [s2 outs]. cbn [fst snd] in *.
+      constructor; auto.
+  Qed.
+
+  Lemma history_reports_within_current_allocatable ops :
+    Forall op_ok ops -> Forall2 step_ok ops (snd (crun ratio pods cinit ops)).
+  Proof. intros. apply crun_current; auto. apply cinv_init. Qed.
 
   Lemma history_reports_bounded ops :
     Forall op_ok ops ->
@@ -486,4 +552,18 @@ Proof.
   - apply Z.leb_le. lia.
   - apply law_sample1_complete; try lia.
   - apply law_sample1_complete; try lia.
+Qed.
+
+Lemma law_event_current_sound ratio acpu amem ev :
+  0 <= ratio <= 100 -> 0 <= acpu <= max_alloc -> 0 <= amem <= max_alloc ->
+  law_event_current ratio acpu amem ev = true ->
+  fst ev <= acpu * ratio / 100 /\ snd ev <= amem * ratio / 100.
+Proof.
+  intros Hr Hc Hm. unfold law_event_current, ratio_ok, zin.
+  replace ((0 <=? ratio) && (ratio <=? 100) && ((0 <=? acpu) && (acpu <=? max_alloc)) &&
+           ((0 <=? amem) && (amem <=? max_alloc))) with true.
+  2:{ symmetry. repeat (apply andb_true_iff; split); apply Z.leb_le; lia. }
+  intros H. repeat (apply andb_true_iff in H as [H ?]).
+  repeat match goal with X : (_ <=? _) = true |- _ => apply Z.leb_le in X end.
+  split; apply Z.div_le_lower_bound; lia.
 Qed.
